@@ -49,6 +49,13 @@ class BatchResults:
         """
         return self._data[name]
 
+    def ensure_output(self, name: str):
+        """
+        Make sure an output exists, even if no results are ever added to it.
+        """
+        if name not in self._data:
+            self._data[name] = ItemListCollection(self._key_schema)
+
     def add_result(self, name: str, key: GenericKey, result: object):
         """
         Add a single result for one of the outputs.
@@ -62,8 +69,7 @@ class BatchResults:
                 The result object to save.
         """
 
-        if name not in self._data:
-            self._data[name] = ItemListCollection(self._key_schema)
+        self.ensure_output(name)
 
         try:
             self._data[name].add(result, *key)
